@@ -228,6 +228,9 @@ func dataKey(t datarep.Table, data []byte, msg string) string {
 // looks complete to C07, wrong octets to C01.
 func dataProp(msg string, bud int) string {
 	switch {
+	case strings.HasPrefix(msg, "drain"):
+		// where an over-long message ends decides where commands resume
+		return "C02"
 	case bud > 0:
 		return "C06"
 	case strings.HasPrefix(msg, "result: stream cut"):
